@@ -43,6 +43,23 @@ pub fn install_case(r: &mut Rep, lo: u8, hi: u8, pre: bool, form: u8) {
             let h1 = hi + 1;
             set_general_handler!(&mut t, gh_record, lo..h1)
         }
+        // open-ended and tuple forms (callers pass them only where they denote exactly lo..=hi)
+        2 => set_general_handler!(&mut t, gh_record, lo..),
+        3 => set_general_handler!(&mut t, gh_record, ..=hi),
+        4 => {
+            let h1 = hi + 1;
+            set_general_handler!(&mut t, gh_record, ..h1)
+        }
+        5 => set_general_handler!(&mut t, gh_record, ..),
+        6 => {
+            let l1 = lo - 1;
+            set_general_handler!(&mut t, gh_record, (core::ops::Bound::Excluded(l1), core::ops::Bound::Included(hi)))
+        }
+        7 => set_general_handler!(&mut t, gh_record, (core::ops::Bound::Included(lo), core::ops::Bound::<u8>::Unbounded)),
+        8 => {
+            let h1 = hi + 1;
+            set_general_handler!(&mut t, gh_record, (core::ops::Bound::<u8>::Unbounded, core::ops::Bound::Excluded(h1)))
+        }
         _ => unreachable!(),
     }
     let after = table_bytes(&t);
@@ -380,13 +397,22 @@ pub fn run(a: &Args) {
             if n % a.nshards != a.shard {
                 continue;
             }
-            install_case(&mut r, lo, hi, false, 0);
+            guarded(&mut r, "C13|install|unexpected-panic", || format!("install {} {} false 0", lo, hi), |r| install_case(r, lo, hi, false, 0));
+            // every other RangeBounds form that denotes exactly lo..=hi
+            let mut forms: Vec<u8> = vec![];
+            if hi == 255 { forms.push(2); forms.push(7); }
+            if lo == 0 { forms.push(3); if hi < 255 { forms.push(4); forms.push(8); } }
+            if lo == 0 && hi == 255 { forms.push(5); }
+            if lo >= 1 && (lo % 16 == 0 || lo < 40 || hi == 255) { forms.push(6); }
+            for f in forms {
+                guarded(&mut r, "C13|install|unexpected-panic", || format!("install {} {} false {}", lo, hi, f), |r| install_case(r, lo, hi, false, f));
+            }
             // prefilled table and exclusive-range form on a thinner grid (every pair with lo or hi on a boundary, plus a stride)
             let boundary = |x: u8| matches!(x, 0 | 7 | 8 | 9 | 14 | 15 | 16 | 18 | 21 | 22 | 27 | 28 | 30 | 31 | 32 | 33 | 254 | 255);
             if boundary(lo) || boundary(hi) || a.thorough() {
-                install_case(&mut r, lo, hi, true, 0);
+                guarded(&mut r, "C13|install|unexpected-panic", || format!("install {} {} true 0", lo, hi), |r| install_case(r, lo, hi, true, 0));
                 if hi < 255 {
-                    install_case(&mut r, lo, hi, false, 1);
+                    guarded(&mut r, "C13|install|unexpected-panic", || format!("install {} {} false 1", lo, hi), |r| install_case(r, lo, hi, false, 1));
                 }
             }
         }
@@ -403,7 +429,7 @@ pub fn run(a: &Args) {
         crate::c13iret::run(&mut r, a);
     }
     crate::simcpu::init();
-    crate::c13iret::entry_frames(&mut r, a);
+    guarded(&mut r, "C13|entry(arbitrary frame)|unexpected-panic", || "entryframe".into(), |r| crate::c13iret::entry_frames(r, a));
     r.exhaustive = true;
     r.sample("install 14 40 true 0".into());
     r.sample("entry 14 (error code 0x123456789abcdef pushed below the frame)".into());
